@@ -45,14 +45,15 @@ from pywbem import (WBEMConnection, CIMInstanceName, CIMClassName, CIMInstance, 
                     CIMMethod, CIMParameter, CIMQualifier, CIMQualifierDeclaration, CIMDateTime, CIMInt, CIMFloat,
                     Uint8, Sint8, Uint16, Sint16, Uint32, Sint32, Uint64, Sint64, Real32, Real64)
 
-R = Run('41 public WBEMConnection operations (60 variants: instance/class level, Iter* via open/pull/fallback) x '
-        'scripted replies: single mutations (del/dup/rename/replace/insert element, del/set/add attribute, text from '
-        'value pools incl. INF/NaN/1e400/""/x) of the reply below xMETHODRESPONSE to depth 3 for every variant, of the '
-        'upper envelope for 3, and of ~100 small fragments (property/qualifier/method/parameter/keybinding/path/'
-        'RETURNVALUE/PARAMVALUE/ERROR of every CIM type and child kind) exhaustively; every reply kind fed to every '
-        'operation; ~45 HTTP status/header combinations x all variants; ~90 garbage/ill-formed-UTF-8/ill-formed-XML '
-        'bodies, all truncations and byte flips of a reply; raw HTTP byte streams over loopback; nesting depth; '
-        '(thorough: bigger pools/snippet sets + seeded pairs of mutations)')
+R = Run('all 41 public WBEMConnection operations (60 variants: instance/class level, Iter* via open/pull/fallback) x '
+        'scripted replies: 31 reply kinds fed to every variant; single mutations (del/dup/rename/replace/insert element, '
+        'del/set/add attribute from per-attribute value pools, text from a pool incl. INF/NaN/1e400/""/x/4400 digits) of '
+        'every reply below xMETHODRESPONSE to depth 3, of the upper envelope for 4 variants, and of 135 small fragments '
+        '(property/qualifier/method/parameter/keybinding/path/RETURNVALUE/PARAMVALUE/ERROR of every CIM type and child '
+        'kind); 20 HTTP statuses x 11 header sets, 15 Content-types, redirects, 26 requests/urllib3 exceptions; 126 '
+        'garbage/ill-formed-UTF-8/ill-formed-XML bodies, all truncations and byte flips of a reply; 62 raw HTTP byte '
+        'streams + stalls over a loopback socket; nesting depth <= 400 (quick: reduced pools/depths, representative '
+        'variants for the byte level; thorough: full pools/snippets, depth 3000, 60000 seeded pairs of mutations)')
 
 THOROUGH = R.tier == 'thorough'
 RND = random.Random(R.seed)
@@ -1900,7 +1901,7 @@ def chunked(parts):
 
 def raw_cases(spec):
     good = doc(spec.root())
-    E, P = pywbem.Error, pywbem.ParseError
+    E = pywbem.Error
     X, C, H = pywbem.XMLParseError, pywbem.ConnectionError, pywbem.HTTPError
     cl = b'Connection: close'
     cases = [
